@@ -119,8 +119,10 @@ def run_tlapm(module, workdir, timeout=900):
             'states_generated': 0, 'wall_s': round(time.time() - t0, 1)}
 
 
-def run_py(args, timeout=5400, env=None, stdin=None):
-    p = subprocess.run([PY] + args, cwd=HARNESS, env=child_env(env), stdout=subprocess.PIPE,
+def run_py(args, timeout=5400, env=None, stdin=None, optimize=False):
+    """optimize=True runs the worker under `python -O` (assert statements stripped): results of the library must
+    not depend on the interpreter's optimisation flag."""
+    p = subprocess.run([PY] + (['-O'] if optimize else []) + args, cwd=HARNESS, env=child_env(env), stdout=subprocess.PIPE,
                        stderr=subprocess.PIPE, text=True, timeout=timeout, input=stdin)
     if p.returncode != 0:
         raise MachineryError(f'harness process failed: {args}\n{p.stderr[-4000:]}')
